@@ -164,7 +164,11 @@ func Generate(p *Profile, seed uint64) *Scenario {
 		if g.Bool() {
 			sc.Steps = append(sc.Steps, Step{Op: "block", Dels: picks(1 + g.Intn(12)), Adds: g.Intn(6), Seed: g.Next()}, Step{Op: "tick", Dt: 3})
 		}
-		sc.Steps = append(sc.Steps, Step{Op: "block", Dels: picks(g.Intn(20)), Adds: 65536 + g.Intn(40) - 3*g.Intn(2), Seed: g.Next()}, Step{Op: "tick", Dt: 3})
+		nd := g.Intn(20)
+		if g.Pct(45) {
+			nd = 64 // every live leaf: all roots empty, the additions write over them
+		}
+		sc.Steps = append(sc.Steps, Step{Op: "block", Dels: picks(nd), Adds: 65536 + g.Intn(40) - 3*g.Intn(2), Seed: g.Next()}, Step{Op: "tick", Dt: 3})
 		if g.Bool() {
 			sc.Steps = append(sc.Steps, Step{Op: "block", Dels: picks(1 + g.Intn(30)), Adds: g.Intn(10), Seed: g.Next()}, Step{Op: "tick", Dt: 3})
 		}
